@@ -3,8 +3,8 @@
    files have the same partialArray code); the theorems below instantiate the arithmetic theorems
    for the legacy container operations, for every array length and canonical token and both
    settings of the SupportNegativeIndices package variable.  The whole-patch refinement against
-   Rfc6902.rfc_apply (up to member order) is compared on every run against the staged package;
-   its proof (the legacy counterpart of ApplySim.v) is an open obligation. *)
+   Rfc6902.rfc_apply (up to member order) is proved in V4ApplySim.v (the legacy counterpart of
+   ApplySim.v) and restated in the second half of this file. *)
 From JP Require Import Bytes Json Text Strings Den Pointer Rfc6902 ImplV5 ImplV4 ImplFacts.
 
 Theorem C18_get_index : forall g (ns : list node) t,
@@ -73,6 +73,254 @@ Proof.
     + inversion H.
 Qed.
 Print Assumptions C18_first_failure.
+
+(* ---- the simulation against RFC 6902 (V4ApplySim.v) ---- *)
+From JP Require Import Domain JsonFacts Abs EqualFacts RefFacts ApplyFacts ApplySim Codec V4ApplySim.
+
+(* the pointer walk of the legacy findObject reaches exactly the container the reference descends
+   to; lazy parsing on the way never changes the value (aval4: members in map order) *)
+Theorem C18_walk : forall g parts c,
+  cgood4 c -> Forall tok_dom4 (map decode_token parts) ->
+  match descend (d4 g) (map decode_token parts) (cval4 c) with
+  | Some p =>
+      if is_container p then
+        exists cp (back : con4 -> con4), cval4 cp = p /\ cgood4 cp /\
+          (forall A (f : con4 -> A * con4), walk4 g parts c f = (Some (fst (f cp)), back (snd (f cp)))) /\
+          (forall cp', cgood4 cp' ->
+             cval4 (back cp') = rebuild (d4 g) (map decode_token parts) (cval4 c) (cval4 cp') /\ cgood4 (back cp'))
+      else exists c', (forall A (f : con4 -> A * con4), walk4 g parts c f = (None, c')) /\ cval4 c' = cval4 c /\ cgood4 c'
+  | None => exists c', (forall A (f : con4 -> A * con4), walk4 g parts c f = (None, c')) /\ cval4 c' = cval4 c /\ cgood4 c'
+  end.
+Proof. exact walk4_spec. Qed.
+Print Assumptions C18_walk.
+
+(* get never fails on an object: an absent member reads as the nil node *)
+Theorem C18_get : forall g c key,
+  cgood4 c -> tok_dom4 key ->
+  match child_at (d4 g) (cval4 c) key with
+  | Some j => exists v, con4_get g c key = Ok v /\ aval4 v = j /\ ngood4 v
+  | None => match c with
+            | DAry _ => exists e, con4_get g c key = Err e /\ (e = EInvalidIndex \/ e = EAtoi)
+            | _ => con4_get g c key = Ok NNil
+            end
+  end.
+Proof. exact con4_get_sim. Qed.
+Print Assumptions C18_get.
+
+(* the legacy Equal (strings compared by spelling) decides structural equality on plain spellings *)
+Theorem C18_equal_is_structural : forall n o, ngood4 n -> ngood4 o -> node_equal4 n o = jeq (aval4 n) (aval4 o).
+Proof. exact node_equal4_spec. Qed.
+Print Assumptions C18_equal_is_structural.
+
+(* deepCopy: the marshalled text (members sorted, HTML-escaped) is a well-formed raw message and
+   denotes the same value up to member order: copy yields an independent duplicate *)
+Theorem C18_copy_duplicates : forall v, ngood4 v ->
+  rawok (enc4 v) /\ jeq (den (enc4 v)) (aval4 v) = true /\ (v <> NNil -> enc4 v <> TNull).
+Proof. exact enc4_codec. Qed.
+Print Assumptions C18_copy_duplicates.
+
+(* one operation (all kinds but copy): the legacy step computes the reference step with the two
+   documented deviations (rfc4_step) EXACTLY, member order included; same error class otherwise *)
+Theorem C18_step_exact : forall g st op,
+  sgood4 st -> op_dom4 op -> op_kind op <> KCopy ->
+  match rfc4_step (d4 g) (sval4 st) (den_op op) with
+  | Rfc6902.Ok j' => exists st', step4 g st op = Ok st' /\ sval4 st' = j' /\ sgood4 st' /\ acc4 st' = acc4 st
+  | Rfc6902.Fail cz => exists e, step4 g st op = Err e /\ cause_rel cz e
+  end.
+Proof. exact step4_sim_nocopy. Qed.
+Print Assumptions C18_step_exact.
+
+(* one operation of any kind (copy included), up to member order *)
+Theorem C18_step : forall g st op doc,
+  g_limit g = 0%Z -> sgood4 st -> veq (sval4 st) doc -> op_dom4 op ->
+  match rfc4_step (d4 g) doc (den_op op) with
+  | Rfc6902.Ok j' => exists st', step4 g st op = Ok st' /\ veq (sval4 st') j' /\ sgood4 st'
+  | Rfc6902.Fail cz => exists e, step4 g st op = Err e /\ cause_rel cz e
+  end.
+Proof. exact step4_sim. Qed.
+Print Assumptions C18_step.
+
+(* where the deviating reference IS the RFC reference: everywhere except an absent object member
+   reported for a replace or a copy *)
+Theorem C18_deviation_only_absent_member : forall d doc o,
+  (rfc_step d doc o = Rfc6902.Fail FMissingMember -> rkind o <> OpReplace /\ rkind o <> OpCopy) ->
+  rfc4_step d doc o = rfc_step d doc o.
+Proof. exact rfc4_step_agree. Qed.
+Print Assumptions C18_deviation_only_absent_member.
+
+(* the deviations themselves *)
+Theorem C18_replace_absent_adds : forall g st op r ms,
+  sgood4 st -> op_kind op = KReplace ->
+  op_str op (B "path") = Ok (x2f :: r) -> Forall tok_dom4 (map decode_token (split_slash r)) -> val_good4 op ->
+  descend (d4 g) (map decode_token (path_parts r)) (sval4 st) = Some (OObj ms) -> aget (path_key r) ms = None ->
+  rfc_step (d4 g) (sval4 st) (den_op op) = Rfc6902.Fail FMissingMember /\
+  exists st', step4 g st op = Ok st' /\ sgood4 st' /\
+    sval4 st' = rebuild (d4 g) (map decode_token (path_parts r)) (sval4 st) (OObj (ms ++ [(path_key r, ref_value op)])).
+Proof. exact step4_replace_absent_adds. Qed.
+Print Assumptions C18_replace_absent_adds.
+
+Theorem C18_copy_absent_copies_null : forall g st op rf r ms,
+  sgood4 st -> op_kind op = KCopy -> g_limit g = 0%Z ->
+  op_str op (B "from") = Ok (x2f :: rf) -> Forall tok_dom4 (map decode_token (split_slash rf)) ->
+  op_str op (B "path") = Ok (x2f :: r) -> Forall tok_dom4 (map decode_token (split_slash r)) ->
+  descend (d4 g) (map decode_token (path_parts rf)) (sval4 st) = Some (OObj ms) -> aget (path_key rf) ms = None ->
+  get_at (d4 g) (ptoks rf) (sval4 st) = Rfc6902.Fail FMissingMember /\
+  match at_parent (d4 g) (ptoks r) (sval4 st) (add_leaf (d4 g) ONull) with
+  | Rfc6902.Ok j' => exists st', step4 g st op = Ok st' /\ sval4 st' = j' /\ sgood4 st'
+  | Rfc6902.Fail cz => exists e, step4 g st op = Err e /\ cause_rel cz e
+  end.
+Proof. exact step4_copy_absent_copies_null. Qed.
+Print Assumptions C18_copy_absent_copies_null.
+
+(* a test of an absent member compares null (the reference's dialect says the same) *)
+Theorem C18_test_absent : forall g st op r ms,
+  sgood4 st -> op_kind op = KTest ->
+  op_str op (B "path") = Ok (x2f :: r) -> Forall tok_dom4 (map decode_token (split_slash r)) -> val_good4 op ->
+  descend (d4 g) (map decode_token (path_parts r)) (sval4 st) = Some (OObj ms) -> aget (path_key r) ms = None ->
+  if onull (ref_value op)
+  then exists st', step4 g st op = Ok st' /\ sval4 st' = sval4 st /\ sgood4 st'
+  else step4 g st op = Err ETestFailed.
+Proof. exact step4_test_absent. Qed.
+Print Assumptions C18_test_absent.
+
+(* the reference does not depend on member order: related documents give related results and the
+   same failure causes *)
+Theorem C18_reference_respects_order : forall d a b o, rop_ok o -> veq a b -> req (rfc4_step d a o) (rfc4_step d b o).
+Proof. exact rfc4_step_veq. Qed.
+Print Assumptions C18_reference_respects_order.
+
+(* whole patches, all six operations, on states: for a patch that avoids the deviations the loop
+   ends exactly as RFC 6902 says: success with the RFC document up to member order and the index
+   past the last operation, or the first failing operation's index with the corresponding error *)
+Theorem C18_apply_patch : forall g p i st doc,
+  g_limit g = 0%Z -> sgood4 st -> veq (sval4 st) doc -> Forall op_dom4 p ->
+  no_deviation (d4 g) doc (map den_op p) = true ->
+  match rfc_apply_from (d4 g) i doc (map den_op p) with
+  | Done doc' => exists st', apply4_from g i st p = (Ok st', (i + length p)%nat) /\ veq (sval4 st') doc' /\ sgood4 st'
+  | Failed j cz => exists e, apply4_from g i st p = (Err e, j) /\ cause_rel cz e
+  end.
+Proof. exact apply4_rfc. Qed.
+Print Assumptions C18_apply_patch.
+
+(* Apply on bytes.  Domain: root object/array without duplicate names, strings plain (no escapes,
+   no < > &), names as the scanner accepts them (tkeys; implied by Codec.tsb); operations in
+   op_dom4; the patch avoids the deviations (true of every patch RFC 6902 evaluates successfully,
+   C18_applicable_no_deviation); no copy-size limit *)
+Theorem C18_apply_refines_rfc : forall g indent p doc t,
+  g_limit g = 0%Z ->
+  parse doc = Some t -> root_container t = true -> tnodup t = true -> tplain t -> tkeys t ->
+  Forall op_dom4 p -> no_deviation (d4 g) (den t) (map den_op p) = true ->
+  match rfc_apply (d4 g) (den t) (map den_op p) with
+  | Done j => exists n, api_apply4 g indent p doc = Out4 (output4 indent (render4 n)) /\ veq (aval4 n) j /\ ngood4 n
+  | Failed i cz => exists e, api_apply4 g indent p doc = Err4 (Some i) e /\ cause_rel cz e
+  end.
+Proof. exact api_apply4_sim. Qed.
+Print Assumptions C18_apply_refines_rfc.
+
+(* without copy the result is the RFC document exactly (member order as RFC 6902 in Rfc6902.v) *)
+Theorem C18_apply_refines_rfc_exact : forall g indent p doc t,
+  parse doc = Some t -> root_container t = true -> tnodup t = true -> tplain t -> tkeys t ->
+  Forall op_dom4 p -> no_copy p -> no_deviation (d4 g) (den t) (map den_op p) = true ->
+  match rfc_apply (d4 g) (den t) (map den_op p) with
+  | Done j => exists n, api_apply4 g indent p doc = Out4 (output4 indent (render4 n)) /\ aval4 n = j /\ ngood4 n
+  | Failed i cz => exists e, api_apply4 g indent p doc = Err4 (Some i) e /\ cause_rel cz e
+  end.
+Proof. exact api_apply4_sim_nocopy. Qed.
+Print Assumptions C18_apply_refines_rfc_exact.
+
+(* every patch the reference evaluates successfully avoids the deviations; so does every patch
+   whose first failure is not an absent member *)
+Theorem C18_applicable_no_deviation : forall d p i doc j,
+  rfc_apply_from d i doc p = Done j -> no_deviation d doc p = true.
+Proof. exact done_no_deviation. Qed.
+Print Assumptions C18_applicable_no_deviation.
+
+Theorem C18_failed_no_deviation : forall d p i doc j cz,
+  rfc_apply_from d i doc p = Failed j cz -> cz <> FMissingMember -> no_deviation d doc p = true.
+Proof. exact failed_no_deviation. Qed.
+Print Assumptions C18_failed_no_deviation.
+
+(* names the scanner accepts satisfy the name condition *)
+Theorem C18_names_ok : forall t, tsb t -> tkeys t.
+Proof. exact tsb_tkeys. Qed.
+Print Assumptions C18_names_ok.
+
+(* non-vacuity of the simulation theorem: a document and a patch with all six operations, a
+   negative index, "-", a test of an absent member, a copy of a parsed object: every hypothesis of
+   C18_apply_refines_rfc holds, and its conclusion is the success branch *)
+Definition C18_exdoc := B "{""a"":{""y"":1,""x"":""hi""},""b"":[1,2]}".
+Definition C18_expatch := B "[{""op"":""add"",""path"":""/b/-"",""value"":{""k"":null}},{""op"":""copy"",""from"":""/a"",""path"":""/c""},{""op"":""test"",""path"":""/c"",""value"":{""x"":""hi"",""y"":1}},{""op"":""replace"",""path"":""/b/0"",""value"":7},{""op"":""move"",""from"":""/a/y"",""path"":""/z""},{""op"":""remove"",""path"":""/b/-1""},{""op"":""test"",""path"":""/q"",""value"":null}]".
+Definition C18_ext : tjson := match parse C18_exdoc with Some t => t | None => TNull end.
+Definition C18_exp : list operation := match api_decode4 C18_expatch with Some p => p | None => [] end.
+
+Ltac utf8_ascii := repeat (first [apply U_nil | apply U_ascii; [reflexivity|]]).
+
+Lemma tok_dom4_name t : t <> [] -> atoi t = None -> canonical_nat t = None -> canonical_neg t = None -> utf8 t -> tok_dom4 t.
+Proof.
+  intros NE A C1 C2 U. split; [|exact U]. split; [exact NE|]. split.
+  - split; intros n H; congruence.
+  - intros z H. congruence.
+Qed.
+
+Ltac tok_name := apply tok_dom4_name; [discriminate | reflexivity | reflexivity | reflexivity | utf8_ascii].
+Ltac tok_num :=
+  split; [|utf8_ascii]; split; [discriminate|]; split;
+  [ split; intros n H; vm_compute in H; inversion H; subst; vm_compute; discriminate
+  | intros z _; first [left; eexists; reflexivity | right; eexists; reflexivity] ].
+Ltac tok_any := first [tok_name | tok_num].
+Ltac toks_ok :=
+  match goal with |- Forall _ ?l => let l' := eval vm_compute in l in change l with l' end;
+  repeat (first [apply Forall_nil | apply Forall_cons; [tok_any|]]).
+Ltac ptr_ok_tac := eexists; split; [reflexivity | toks_ok].
+Ltac raw4_tac :=
+  split; [discriminate|]; split; [reflexivity|]; split; [reflexivity|]; split;
+  [ vm_compute; repeat split | vm_compute; repeat split; utf8_ascii ].
+Ltac val_good_tac :=
+  match goal with |- val_good4 ?op =>
+    let v := eval vm_compute in (aget (B "value") op) in
+    change (val_good4 op) with (match v with Some (Some t) => raw4 t | _ => True end) end;
+  cbv iota beta; first [exact I | raw4_tac].
+
+Lemma C18_ex_dom : Forall op_dom4 C18_exp.
+Proof.
+  match goal with |- Forall _ ?l => let l' := eval vm_compute in l in change l with l' end.
+  repeat (first [apply Forall_nil | apply Forall_cons]).
+  all: (split; [val_good_tac|]).
+  all: match goal with |- exists path, op_str ?op _ = Ok path /\ _ =>
+         let p := eval vm_compute in (op_str op (B "path")) in
+         match p with Ok ?pp => exists pp end;
+         let k := eval vm_compute in (op_kind op) in
+         (split; [vm_compute; reflexivity | change (op_kind op) with k; cbv iota beta])
+       end.
+  - ptr_ok_tac.
+  - split; [ptr_ok_tac|]. eexists. split; [vm_compute; reflexivity | ptr_ok_tac].
+  - left. ptr_ok_tac.
+  - left. ptr_ok_tac.
+  - split; [ptr_ok_tac|]. eexists. split; [vm_compute; reflexivity | ptr_ok_tac].
+  - ptr_ok_tac.
+  - left. ptr_ok_tac.
+Qed.
+
+Example C18_sim_nonvacuous :
+  exists n, api_apply4 (mkOpts4 true 0 None) [] C18_exp C18_exdoc = Out4 (output4 [] (render4 n)) /\
+            veq (aval4 n) (den (match parse (B "{""a"":{""x"":""hi""},""b"":[7,2],""c"":{""y"":1,""x"":""hi""},""z"":1}") with Some t => t | None => TNull end)) /\
+            ngood4 n.
+Proof.
+  pose proof (C18_apply_refines_rfc (mkOpts4 true 0 None) [] C18_exp C18_exdoc C18_ext) as H.
+  assert (R : rfc_apply (d4 (mkOpts4 true 0 None)) (den C18_ext) (map den_op C18_exp) =
+              Done (den (match parse (B "{""a"":{""x"":""hi""},""b"":[7,2],""c"":{""y"":1,""x"":""hi""},""z"":1}") with Some t => t | None => TNull end)))
+    by (vm_compute; reflexivity).
+  rewrite R in H. apply H.
+  - reflexivity.
+  - vm_compute; reflexivity.
+  - reflexivity.
+  - vm_compute; reflexivity.
+  - vm_compute; repeat split.
+  - vm_compute; repeat split; utf8_ascii.
+  - exact C18_ex_dom.
+  - vm_compute; reflexivity.
+Qed.
+Print Assumptions C18_sim_nonvacuous.
 
 Example C18_nonvacuous :
   match api_decode4 (B "[{""op"":""add"",""path"":""/a/-"",""value"":3},{""op"":""copy"",""from"":""/a"",""path"":""/b""},{""op"":""remove"",""path"":""/a/-3""},{""op"":""test"",""path"":""/b"",""value"":[1,2,3]}]") with
